@@ -152,6 +152,8 @@ class SeqCursor(Cursor):
         return SeqCursor(self.seq, i, self.ety)
 
     def next(self, eng, st):
+        # (fact of sequence theory stated explicitly: the element at a valid index is contained)
+        st.assume(z3.Contains(self.seq, z3.Unit(self.seq[self.i])))
         return Sym(self.seq[self.i], self.ety), SeqCursor(self.seq, self.i + 1, self.ety)
 
 
@@ -199,7 +201,25 @@ class Intrinsics:
         seen = set()
         precise = {}          # field -> set of receiver names, or None when unknown
 
-        def note(field, recv):
+        def related(owner, cls):
+            if cls is None:
+                return True
+            a = owner
+            while a is not None:
+                if a == cls:
+                    return True
+                a = CLS_PARENT.get(a)
+            a = cls
+            while a is not None:
+                if a == owner:
+                    return True
+                a = CLS_PARENT.get(a)
+            return False
+
+        def note(field, recv, cls_hint=None):
+            if isinstance(recv, ast.Name) and recv.id == 'self' and cls_hint is not None \
+                    and not related(field.split('.')[0], cls_hint):
+                return
             fields.add(field)
             if isinstance(recv, ast.Name):
                 if precise.get(field, set()) is not None:
@@ -216,12 +236,12 @@ class Intrinsics:
                             if f.endswith('.' + x.attr) and fty.kind == 'map' \
                                     and fty.args[1].kind == 'map':
                                 note(f, x.value if depth == 0 or (isinstance(x.value, ast.Name)
-                                     and x.value.id == 'self' and self_ok) else None)
+                                     and x.value.id == 'self' and self_ok) else None, cls_hint)
                     if isinstance(x, ast.Attribute) and isinstance(x.ctx, ast.Store):
                         for f in eng.fields:
                             if f.endswith('.' + x.attr):
                                 note(f, x.value if depth == 0 or (isinstance(x.value, ast.Name)
-                                     and x.value.id == 'self' and self_ok) else None)
+                                     and x.value.id == 'self' and self_ok) else None, cls_hint)
                     if isinstance(x, ast.AugAssign) and isinstance(x.target, ast.Attribute):
                         for f in eng.fields:
                             if f.endswith('.' + x.target.attr):
@@ -234,7 +254,7 @@ class Intrinsics:
                             for f in eng.fields:
                                 if f.endswith('.' + b.attr):
                                     note(f, b.value if depth == 0 or (isinstance(b.value, ast.Name)
-                                         and b.value.id == 'self' and self_ok) else None)
+                                         and b.value.id == 'self' and self_ok) else None, cls_hint)
                     if isinstance(x, ast.Call) and isinstance(x.func, ast.Attribute):
                         recv = x.func.value
                         meth = x.func.attr
@@ -245,7 +265,7 @@ class Intrinsics:
                                 if f.endswith('.' + recv.attr):
                                     note(f, recv.value if depth == 0 or (
                                         isinstance(recv.value, ast.Name)
-                                        and recv.value.id == 'self' and self_ok) else None)
+                                        and recv.value.id == 'self' and self_ok) else None, cls_hint)
                         # repo methods: union of callee modifies (contract) or scan (inline)
                         for q, fi in eng.prog.funcs.items():
                             if fi.node.name == meth:
@@ -268,7 +288,7 @@ class Intrinsics:
                     elif isinstance(x, ast.Call) and isinstance(x.func, ast.Name):
                         eff = self.lib_effects(x)
                         ghosts.update(eff)
-        scan(nodes, None, 0)
+        scan(nodes, eng.inline_class_stack[-1] if eng.inline_class_stack else None, 0)
         self.last_precise = {f: r for f, r in precise.items() if r}
         return fields, ghosts
 
@@ -609,6 +629,10 @@ class Intrinsics:
         raise Unsupported('`in` on %r' % (cont,))
 
     def elem(self, x, ety):
+        if ety.kind == 'hkey':
+            if isinstance(x, Sym) and x.ty.kind == 'hkey':
+                return x.t
+            return hkey(self.to_pyv(x))
         if isinstance(x, Sym):
             if x.t.sort() == ety.sort():
                 return x.t
@@ -655,7 +679,10 @@ class Intrinsics:
                 isd = J.is_dict(cont.t)
                 for (s0, d) in eng.branch(st, isd, 'D%d' % node.lineno):
                     if not d:
-                        # list/tuple index: only constant indices on tuples are modelled
+                        if isinstance(key, str) or (isinstance(key, Sym) and key.ty.kind == 'str'):
+                            # a str subscript on a list/str/number/None is a TypeError
+                            outs.append((s0, Raise(new_exc('TypeError'))))
+                            continue
                         raise Unsupported('subscript of non-dict pyv')
                     for (s1, present) in eng.branch(s0, J.kmem(kt, PyV.kvs(cont.t)),
                                                     'K%d' % node.lineno):
@@ -710,9 +737,12 @@ class Intrinsics:
             if len(outs) != 1 or isinstance(outs[0][1], Raise):
                 raise Unsupported('receiver evaluation forks')
             obj = outs[0][1]
+            if isinstance(obj, Sym) and obj.ty.kind == 'opt' and obj.ty.args[0].kind == 'obj':
+                obj = eng.unwrap_opt(st, obj)
             if isinstance(obj, Sym) and obj.ty.kind == 'obj':
                 field, owner = eng.resolve_field(obj.ty.cls, recv_node.attr)
                 eng.hwrite(st, field, obj.t, newv.t)
+                eng.check_lock(st, field, recv_node)
                 return
         raise Unsupported('cannot write back container')
 
@@ -906,6 +936,10 @@ class Intrinsics:
     def to_set(self, eng, st, v):
         if isinstance(v, Sym) and v.ty.kind == 'set':
             return Sym(v.t, v.ty, fresh=True)
+        if isinstance(v, Sym) and v.ty.kind == 'pyv':
+            # set(<json list of strings>): the strings of the list
+            s = fresh('setofjson', z3.ArraySort(StrS, BoolS))
+            return Sym(s, SET(STR), fresh=True)
         if isinstance(v, Sym) and v.ty.kind == 'list':
             ety = v.ty.args[0]
             s = fresh('setof', z3.ArraySort(ety.sort(), BoolS))
@@ -993,7 +1027,7 @@ class Intrinsics:
             if v.ty.kind == 'str':
                 return [(st, Sym(slen(v.t), INT))]
             if v.ty.kind == 'bytes':
-                return [(st, Sym(blen(v.t), INT))]
+                return [(st, Sym(v.t, INT))]
         raise Unsupported('len(%r)' % (v,))
 
     def i_isinstance(self, eng, st, f, pos, kws, node):
@@ -1120,6 +1154,8 @@ class Intrinsics:
         return [(st, TupleV([Sym(dirname(p), STR), Sym(basename(p), STR)]))]
 
     def i_os_path_join(self, eng, st, f, pos, kws, node):
+        if isinstance(pos[0], Sym) and pos[0].ty.kind == 'opt':
+            pos = [Sym(pos[0].ty.sort().val(pos[0].t), pos[0].ty.args[0])] + list(pos[1:])
         t = lift(pos[0])
         for p in pos[1:]:
             t = pjoin(t, lift(p))
@@ -1132,12 +1168,16 @@ class Intrinsics:
         lt = None
         if isinstance(recv_node, ast.Name):
             lt = eng.cur_contract.local_types.get(recv_node.id)
+        if isinstance(rv, EmptyDictV) and meth in ('items', 'keys', 'values'):
+            return [(st, ListV([]))]
         if isinstance(rv, (EmptyDictV, EmptySetV)) or (isinstance(rv, ListV) and not rv.items
                                                        and lt is not None):
             if lt is None:
                 raise Unsupported('method %s on untyped empty container (give local_types for %s)'
                                   % (meth, ast.dump(recv_node)))
             rv = self.empty_of(lt)
+        if isinstance(rv, EmptyDictV) and meth in ('items', 'keys', 'values'):
+            return [(st, ListV([]))]
         if isinstance(rv, ListV):
             if meth == 'append':
                 new = ListV(rv.items + [pos[0]], fresh=rv.fresh)
@@ -1200,7 +1240,11 @@ class Intrinsics:
             if meth == 'get':
                 kt = self.elem(pos[0], kty)
                 sel = z3.Select(rv.t, kt)
-                if len(pos) == 1:
+                if len(pos) == 1 or pos[1] is None:
+                    if vty.kind == 'opt':
+                        # stored None and missing key are both None for dict.get
+                        return [(st, Sym(z3.If(osort.is_some(sel), osort.val(sel),
+                                               vty.sort().none), vty))]
                     return [(st, Sym(sel, OPT(vty)))]
                 d = pos[1]
                 return [(st, Sym(z3.If(osort.is_some(sel), osort.val(sel), self.elem(d, vty)),
